@@ -36,6 +36,44 @@ func (e *Exec) autoInlinePkg(fn *ssa.Function) bool {
 	return false
 }
 
+func (e *Exec) inlinableRepoFunc(fn *ssa.Function) bool {
+	if fn.Blocks == nil || fn.Pkg == nil || !strings.HasPrefix(fn.Pkg.Pkg.Path(), repoModule+"/internal") {
+		return false
+	}
+	if len(fn.Blocks) > 80 || len(findLoops(fn)) > 0 {
+		return false
+	}
+	for _, n := range e.inlineStack {
+		if n == displayName(fn) {
+			return false
+		}
+	}
+	if displayName(fn) == e.FnName {
+		return false
+	}
+	if v, ok := e.inlinable[fn]; ok {
+		return v
+	}
+	e.inlinable[fn] = false // recursion guard
+	for _, b := range fn.Blocks {
+		for _, ins := range b.Instrs {
+			switch x := ins.(type) {
+			case *ssa.Go, *ssa.Select, *ssa.Defer:
+				return false
+			case *ssa.Call:
+				// only bodies whose calls are all modelled (contract, builtin, or in turn inlinable):
+				// an unmodelled call is better kept at the outer call, where it havocs less
+				ci := e.resolveCallee(nil, x.Common())
+				if ci.kind == ckUnmodelled {
+					return false
+				}
+			}
+		}
+	}
+	e.inlinable[fn] = true
+	return true
+}
+
 // isSimplePure: loop-free, store-free function whose calls are themselves simple pure.
 func (e *Exec) isSimplePure(fn *ssa.Function) bool {
 	switch e.simplePure[fn] {
@@ -171,6 +209,12 @@ func (e *Exec) resolveStatic(fn *ssa.Function, bindings []Val) calleeInfo {
 		return calleeInfo{kind: ckInline, fn: fn, bindings: bindings, name: name}
 	}
 	if e.isSimplePure(fn) {
+		return calleeInfo{kind: ckInline, fn: fn, name: name}
+	}
+	// repository functions without a contract (e.g. a helper extracted by a refactoring) are executed
+	// in place from their real body when that is possible: loop-free, not recursive, of moderate size.
+	// Their panic / frame obligations are then attributed to the caller.
+	if e.inlinableRepoFunc(fn) {
 		return calleeInfo{kind: ckInline, fn: fn, name: name}
 	}
 	// generic instantiations / wrappers: try origin
@@ -346,18 +390,30 @@ func (e *Exec) applyContract(f *frame, st *State, ci calleeInfo, args []Val, sig
 		preEnv := *env
 		preEnv.St = old
 		type resolved struct {
-			ts  []modTarget
-			all bool
+			ts    []modTarget
+			all   bool
+			above string
 		}
 		var rs []resolved
 		for _, m := range con.Modifies {
+			if m.Kind == "above" {
+				rs = append(rs, resolved{above: preEnv.elab(m.X).T})
+				continue
+			}
 			ts, all := e.resolveMod(&preEnv, m)
-			rs = append(rs, resolved{ts, all})
+			rs = append(rs, resolved{ts: ts, all: all})
 		}
 		if !con.Trusted || con.Flags["allocates"] || len(con.Modifies) > 0 {
 			e.bumpTop(st)
 		}
 		for _, r := range rs {
+			if r.above != "" {
+				if e.top.active && !e.top.everything && f.mode != "spec" {
+					e.oblig(st, "frame", "above", app(">=", r.above, e.top.entryTop), ins.String(), e.position(ins.Pos()))
+				}
+				e.frameEpochAbove(st, r.above)
+				continue
+			}
 			e.havocTargets(f, st, r.ts, r.all, ins)
 		}
 	}
